@@ -176,19 +176,29 @@ package hessian
 //@   requires mapsize(e.refMap) + @clashes == @opens
 //@   assigns @out, @W, @E, @nwrites, @tr, @opens, @clashes, @lastwriter, e.clsDefList, mapof(e.refMap), mapof(e.nameMap)
 //@   sets @lastwriter = 2
-//@   loop 1 invariant [C15,C13:flags-loop] 0 <= i && (@W ==> old(@W)) && (@E ==> old(@E))
+//@   let gvv    = R.unpackPtrValue(R.valueOf(data))
+//@   let gnull  = (R.kind(gvv) == K.Ptr && !R.isValid(R.elem(gvv))) || R.mapLen(gvv) == 0
+//@   let gname  = R.tName(R.typeOf(gvv))
+//@   let hdr    = G.mapHdr(old(@tr), old(maphas(e.nameMap, gname)), old(mapget(e.nameMap, gname)))
+//@   let isRef  = @tr == G.ref(old(@tr), int64(ti.v(last(@tr))))
+//@   loop 1 invariant [C15,C13:flags-loop] 0 <= i && i <= R.mapLen(gvv) && (@W ==> old(@W)) && (@E ==> old(@E))
+//@   loop 1 invariant [C02,C01:map-entries] @tr == G.mapEntries(hdr, gvv, i)
 //@   loop 1 invariant [C04:inv-ordinals] mapsize(e.refMap) + @clashes == @opens
 //@   loop 2 invariant [C15,C13:flags-loop] 0 <= i && (@W ==> old(@W)) && (@E ==> old(@E))
 //@   loop 2 invariant [C04:inv-ordinals] mapsize(e.refMap) + @clashes == @opens
 //@   ensures [C15:W] (@W && !old(@W)) ==> err != nil
 //@   ensures [C13:E] (@E && !old(@E)) ==> err != nil
-//@   ensures [C04:inv-ordinals]  err == nil ==> mapsize(e.refMap) + @clashes == @opens
+//@   ensures [C02,C04:map-null]            err == nil && gnull ==> @tr == snoc(old(@tr), TByte('N')) && @opens == old(@opens) && mapsize(e.refMap) == old(mapsize(e.refMap))
+//@   ensures [C02,C01,C13:map-production]  err == nil && !gnull && !isRef && R.tKind(R.typeOf(gvv)) == K.Map ==> @tr == snoc(G.mapEntries(hdr, gvv, R.mapLen(gvv)), TByte('Z'))
+//@   ensures [C04:inv-ordinals]            err == nil ==> mapsize(e.refMap) + @clashes == @opens
 
 //@ func (*Encoder).WriteData
 //@   requires e.nameMap != nil && e.refMap != nil
 //@   requires mapsize(e.refMap) + @clashes == @opens
-//@   assigns @out, @W, @E, @nwrites, @tr, @opens, @clashes, @lastwriter, e.clsDefList, mapof(e.refMap), mapof(e.nameMap)
+//@   assigns @out, @W, @E, @nwrites, @tr, @opens, @clashes, @lastwriter, @startcls, @startrefs, e.clsDefList, mapof(e.refMap), mapof(e.nameMap)
 //@   summary @tr = snoc(old(@tr), TVal(data))
+//@   sets @startcls = len(old(e.clsDefList))
+//@   sets @startrefs = old(mapsize(e.refMap))
 //@   let rv   = R.valueOf(data)
 //@   let v    = ite(R.kind(rv) == K.Ptr, R.unpackPtr(rv), rv)
 //@   let null = data == nil || (R.kind(rv) == K.Ptr && !R.isValid(v))
@@ -208,3 +218,64 @@ package hessian
 //@   proves [C01,C02:kind-map]      err == nil && !null && k == K.Map ==> @lastwriter == 2
 //@   proves [C01,C02:kind-struct]   err == nil && !null && k == K.Struct ==> @lastwriter == 3
 //@   proves [C13:kind-unsupported]  !null && !(k == K.Bool || k == K.String || k == K.Int8 || k == K.Int16 || k == K.Int32 || k == K.Int || k == K.Uint8 || k == K.Uint16 || k == K.Int64 || k == K.Uint || k == K.Uint32 || k == K.Uint64 || k == K.Float32 || k == K.Float64 || k == K.Slice || k == K.Array || k == K.Map || k == K.Struct) ==> err != nil
+
+// ---------------------------------------------------------------- entry points (C06, C11, C13, C15)
+// @startcls / @startrefs: sizes of the class-definition and reference tables when the value's encoding began.
+
+//@ func NewEncoder
+//@   ensures [C11,C17:new-encoder] fresh(result) && result.nameMap != nil && (np != nil ==> result.nameMap == np) && (np == nil ==> fresh(result.nameMap))
+//@   ensures [C11:new-encoder-reset] w != nil ==> result.writer == w && len(result.clsDefList) == 0 && mapsize(result.refMap) == 0 && result.refMap != nil
+
+//@ func (*Encoder).WriteObject
+//@   requires e.nameMap != nil && e.refMap != nil
+//@   requires mapsize(e.refMap) + @clashes == @opens
+//@   assigns @out, @W, @E, @nwrites, @tr, @opens, @clashes, @lastwriter, @startcls, @startrefs, e.clsDefList, mapof(e.refMap), mapof(e.nameMap)
+//@   ensures [C15:W] (@W && !old(@W)) ==> err != nil
+//@   ensures [C13:E] (@E && !old(@E)) ==> err != nil
+//@   ensures [C06,C02:one-value] err == nil ==> @tr == snoc(old(@tr), TVal(data))
+//@   ensures [C06:tables-continue] @startcls == len(old(e.clsDefList)) && @startrefs == old(mapsize(e.refMap))
+//@   ensures [C04:inv-ordinals] err == nil ==> mapsize(e.refMap) + @clashes == @opens
+
+//@ func (*Encoder).WriteTo
+//@   requires e.nameMap != nil
+//@   assigns @out, @W, @E, @nwrites, @tr, @opens, @clashes, @lastwriter, @startcls, @startrefs, e.writer, e.clsDefList, e.refMap, mapof(e.nameMap)
+//@   ensures [C15:W] (@W && !old(@W)) ==> err != nil
+//@   ensures [C13:E] (@E && !old(@E)) ==> err != nil
+//@   ensures [C11:one-shot-from-reset-state] @startcls == 0 && @startrefs == 0 && e.writer == w
+//@   ensures [C11,C02:one-shot-one-value]    err == nil ==> @tr == snoc(emp, TVal(data))
+
+//@ func (*Encoder).Encode
+//@   requires e.nameMap != nil
+//@   assigns @out, @W, @E, @nwrites, @tr, @opens, @clashes, @lastwriter, @startcls, @startrefs, e.writer, e.clsDefList, e.refMap, mapof(e.nameMap)
+//@   ensures [C13:E] (@E && !old(@E)) ==> err != nil
+//@   ensures [C11:one-shot-from-reset-state] @startcls == 0 && @startrefs == 0
+//@   ensures [C11,C02:one-shot-one-value]    err == nil ==> @tr == snoc(emp, TVal(object))
+//@   ensures [C11:fresh-buffer]              err == nil ==> fresh(result0)
+//@   ensures [C13,C15:nil-on-error]          err != nil ==> result0 == nil
+
+//@ func ToBytes
+//@   assigns @out, @W, @E, @nwrites, @tr, @opens, @clashes, @lastwriter, @startcls, @startrefs, mapof(nameMap)
+//@   ensures [C13:E] (@E && !old(@E)) ==> err != nil
+//@   ensures [C11:one-shot-from-reset-state] @startcls == 0 && @startrefs == 0
+//@   ensures [C11,C02:one-shot-one-value]    err == nil ==> @tr == snoc(emp, TVal(object))
+
+//@ func (*goHessian).WriteTo
+//@   requires gh.encoder.nameMap != nil
+//@   ensures [C15:W] (@W && !old(@W)) ==> err != nil
+//@   ensures [C13:E] (@E && !old(@E)) ==> err != nil
+//@   ensures [C11:one-shot-from-reset-state] @startcls == 0 && @startrefs == 0
+//@   ensures [C11,C02:one-shot-one-value]    err == nil ==> @tr == snoc(emp, TVal(object))
+
+//@ func (*goHessian).ToBytes
+//@   requires gh.encoder.nameMap != nil
+//@   ensures [C13:E] (@E && !old(@E)) ==> err != nil
+//@   ensures [C11:one-shot-from-reset-state] @startcls == 0 && @startrefs == 0
+//@   ensures [C11,C02:one-shot-one-value]    err == nil ==> @tr == snoc(emp, TVal(object))
+
+//@ func (*goHessian).Write
+//@   requires gh.encoder.nameMap != nil && gh.encoder.refMap != nil
+//@   requires mapsize(gh.encoder.refMap) + @clashes == @opens
+//@   ensures [C15:W] (@W && !old(@W)) ==> err != nil
+//@   ensures [C13:E] (@E && !old(@E)) ==> err != nil
+//@   ensures [C06,C02:one-value] err == nil ==> @tr == snoc(old(@tr), TVal(object))
+//@   ensures [C06:tables-continue] @startcls == len(old(gh.encoder.clsDefList)) && @startrefs == old(mapsize(gh.encoder.refMap))
